@@ -352,6 +352,7 @@ type ModSpec struct {
 	RemoveQER            []uint32
 	NewCPSEID            uint64 // 0 = keep
 	Tag                  string // generator's name for the kind of change (signature component)
+	Extra                []*ie.IE // additional raw IEs (malformed elements)
 	Trigger              string // non-empty: this operation is a trigger of a listed known finding
 }
 
@@ -421,6 +422,7 @@ func (p *Peer) ModifyMsg(upSEID uint64, m *ModSpec) *message.SessionModification
 	for _, x := range m.UpdateQER {
 		ies = append(ies, x.UpdateIE())
 	}
+	ies = append(ies, m.Extra...)
 	return message.NewSessionModificationRequest(0, 0, upSEID, p.NextSeq(), 0, ies...)
 }
 
